@@ -16,6 +16,9 @@ registry) and user dicts numbered in creation order:
   ["newsys", r, name, [length, mass, time]]        UnitSystem(name, …, registry=r)
   ["mixed", a, b, form, qa, qb]                    arithmetic between objects of registries a and b
   ["namespace", r, "symbols"|"constants"]          add_symbols / add_constants(namespace, registry=r)
+  ["convert", a, b, ep, how, qa, qb]               data of registry a (unit qa) converted through entry point ep
+                                                   to qb given as a unit OBJECT of registry b (how="obj") or as a
+                                                   string (how="str")
 
 `World.step` executes one step and returns its canonical outcome; `World.observe(i)` is a NON-mutating
 observation of what registry i resolves (table rows that were not written back, the resolution of a
@@ -30,6 +33,36 @@ PROBES = ["foo", "kfoo", "Mfoo", "foo*s", "zot", "kzot", "foo/zot", "m", "km", "
           "degC", "J", "km/s", "bar", "qux", "kqux"]
 BUILTIN_CONVERSIONS = [("km", "mile"), ("pc", "ly"), ("J", "erg"), ("hr", "s"), ("degC", "K"), ("lb", "kg"),
                        ("Msun", "g"), ("eV", "J"), ("inch", "cm"), ("G", "T")]
+
+
+CONVERT_EPS = ["to", "in_units", "convert_to_units", "ctor_array", "ctor_quantity", "to_value", "ufunc_add"]
+METHOD_EPS = ("to", "in_units", "convert_to_units")
+
+
+def entry_point(name, x, target):
+    """conversion entry point `name` on data `x` with a target unit (object or string) -> the unit object the
+    result carries (None: the result carries no unit)"""
+    import numpy as np
+    from unyt import Unit, unyt_array, unyt_quantity
+
+    if name == "to":
+        return x.to(target).units
+    if name == "in_units":
+        return x.in_units(target).units
+    if name == "convert_to_units":
+        x.convert_to_units(target)
+        return x.units
+    if name == "ctor_array":
+        return unyt_array(x, target).units
+    if name == "ctor_quantity":
+        return unyt_quantity(x[0], target).units
+    if name == "to_value":
+        x.to_value(target)
+        return None
+    if name == "ufunc_add":
+        t = target if not isinstance(target, str) else Unit(target, registry=x.units.registry)
+        return np.add(x, unyt_array([4.0, 5.0], t)).units
+    raise ValueError(name)
 
 
 def dims(key):
@@ -341,6 +374,41 @@ class World:
         left_knows = all(not isinstance(_pure_lookup(str(sym), ua.registry.lut), str) for sym in ub.expr.free_symbols)
         return ("mixed", cold, warm, ua.registry is ub.registry, left_knows), [], a
 
+    def _convert(self, a, b, ep, how, qa, qb):
+        """-> ('convert', whose registry the result's unit belongs to, left unit object still of its registry,
+        target unit object still of its registry, one registry only)"""
+        from unyt import Unit, unyt_array
+
+        ra, rb = self.regs[a], self.regs[b]
+        errs = []
+        ua = ub = None
+        try:
+            ua = Unit(qa, registry=ra)
+        except Exception as e:  # noqa: BLE001
+            errs.append(e)
+        if how == "obj":
+            try:
+                ub = Unit(qb, registry=rb)
+            except Exception as e:  # noqa: BLE001
+                errs.append(e)
+        if errs:
+            return exc(errs[0]) + ("operand",), [], a
+        home_a, home_b = ua.registry, (ub.registry if ub is not None else None)
+        try:
+            ru = entry_point(ep, unyt_array([1.0, 2.0], ua), ub if how == "obj" else qb)
+        except Exception as e:  # noqa: BLE001
+            return exc(e), [], a
+        if ru is None:
+            whose = "none"
+        elif ru.registry is home_a:
+            whose = "left"
+        elif ru.registry is home_b:
+            whose = "right"
+        else:
+            whose = "another registry"
+        return ("convert", whose, ua.registry is home_a, ub is None or ub.registry is home_b,
+                home_b is None or home_a is home_b), [], a
+
     # ------------------------------------------------------------------ observations (non-mutating)
     def observe(self, i):
         """what registry i resolves, without touching it"""
@@ -463,9 +531,12 @@ def oracle(hist):
         g = None if through is None else W.group[through]
         if st[0] == "fromdict" and created:
             g = W.group[created[0]]
+        # building the TARGET unit of a conversion is a look-up through the target's registry (it may write derived
+        # prefixed rows into that registry's table, which registries made from the same `lut=` dict share by design)
+        g2 = W.group[st[2]] if st[0] == "convert" and st[4] == "obj" and st[2] < len(W.group) else g
         for i in range(n_before):
             now = W.observe(i)
-            if W.group[i] != g and not (i == 0 and edits_default(st, W)):
+            if W.group[i] not in (g, g2) and not (i == 0 and edits_default(st, W)):
                 d = diff(obs[i]["rows"], now["rows"]) + diff(obs[i]["resolves"], now["resolves"])
                 if d or now["usys"] != obs[i]["usys"]:
                     victim = "default" if i == 0 else W.route[i]
@@ -533,9 +604,193 @@ def oracle(hist):
                     f"step {k} {st}: the result belongs to {out[2]} registry, not to the left operand's — with the "
                     "library's lru caches emptied first it belongs to the left operand's: a cached result computed for "
                     "equal-looking units of another registry was handed out", k)
+        # ---- a conversion between registries writes to neither: the unit OBJECTS handed in still belong to
+        # their registries (they are shared: `Unit(s, registry=r)` and the unyt namespace hand out the same object)
+        if st[0] == "convert" and out[0] == "convert":
+            same = "same-registry" if out[4] else "two-registries"
+            for ok, which in ((out[2], "data-unit"), (out[3], "target-unit")):
+                if not ok:
+                    bad(f"mixed-writes-operand|convert:{st[3]}|{st[4]}|{which}-moved-to-another-registry",
+                        f"step {k} {st}: after the conversion the {which} object passed in belongs to another registry "
+                        "than before (its `registry` attribute was assigned): everybody holding that object — the "
+                        "string cache of its registry, the unyt namespace — now resolves through the other registry", k)
+            if st[3] in METHOD_EPS and out[1] not in ("left", "none"):
+                bad(f"mixed-result-registry|convert:{st[3]}|{st[4]}|{same}|{out[1]}",
+                    f"step {k} {st}: the converted data belong to {out[1]} registry, not to the registry of the data", k)
     return fails
+
+
+# --------------------------------------------------------------------------------------
+# `Unit` objects as shared mutable objects (model: UnytModel/UnitHome.lean)
+
+HOME_EXPORTED = ["m", "km", "s", "g"]
+HOME_LENGTHS = ["m", "km", "cm", "pc", "mile", "ft"]
+# (`ufunc_add` labels its result with the DATA's unit: it is arithmetic, covered by the world histories)
+HOME_EPS = [e for e in CONVERT_EPS if e != "ufunc_add"]
+
+
+class HomeWorld:
+    """registries 0 (default) … n (fresh `UnitRegistry()`), and every `Unit` object a step handed out, numbered in
+    the order of first appearance (the exported objects first)
+
+      ["lookup", r, s]                 Unit(s, registry=r)
+      ["clear", r]                     an edit through r (add of a new symbol): the string cache is emptied
+      ["arith", x, y, "*"|"/"]         objs[x] * objs[y]
+      ["construct", u, reg|None, bp]   unyt_array(v, objs[u], registry=reg, bypass_validation=bp).units
+      ["convert", ep, x, how, arg]     data labelled objs[x] converted through ep to objs[arg] / to the string arg
+    object references are taken modulo the number of objects known when the step runs"""
+
+    def __init__(self, nregs):
+        import unyt
+        from unyt.unit_registry import UnitRegistry, default_unit_registry
+
+        self.regs = [default_unit_registry] + [UnitRegistry() for _ in range(nregs)]
+        self.objs = [getattr(unyt, n) for n in HOME_EXPORTED]
+        self.seed = [(n, default_unit_registry._unit_object_cache.get(n) is getattr(unyt, n)) for n in HOME_EXPORTED]
+        self.nclear = 0
+        self.tainted = False
+        # what importing the library left in the default registry's string cache beside the exported objects is
+        # dropped (as any edit of a registry does), so that every cached object is one this history handed out
+        keep = {id(u) for u in self.objs}
+        for k_ in [k_ for k_, u in default_unit_registry._unit_object_cache.items() if id(u) not in keep]:
+            del default_unit_registry._unit_object_cache[k_]
+        self.residue = set()
+
+    def idx(self, u):
+        for i, o in enumerate(self.objs):
+            if o is u:
+                return i
+        self.objs.append(u)
+        self.residue.discard(id(u))
+        return len(self.objs) - 1
+
+    def sweep(self):
+        """number the unit objects a step put into a string cache without handing them out"""
+        for reg in self.regs:
+            for u in list(reg._unit_object_cache.values()):
+                if id(u) not in self.residue:
+                    self.idx(u)
+
+    def home(self, u):
+        for i, r in enumerate(self.regs):
+            if u.registry is r:
+                return i
+        return -1
+
+    def homes(self):
+        return [self.home(u) for u in self.objs]
+
+    def cache(self, r):
+        out = []
+        for s_, u in self.regs[r]._unit_object_cache.items():
+            k = [i for i, o in enumerate(self.objs) if o is u]
+            out.append(f"{s_}={k[0] if k else '?'}")
+        return sorted(out)
+
+    def resolve(self, st):
+        """the step with its object references resolved, or None when it cannot run (dimension mismatch …)"""
+        n = len(self.objs)
+        k = st[0]
+        if k in ("lookup", "clear"):
+            return list(st) if st[1] < len(self.regs) and not (k == "clear" and st[1] == 0) else None
+        if k == "arith":
+            return ["arith", st[1] % n, st[2] % n, st[3]]
+        if k == "construct":
+            if st[2] is not None and st[2] >= len(self.regs):
+                return None
+            return ["construct", st[1] % n, st[2], bool(st[3])]
+        if k == "convert":
+            import unyt.dimensions as D
+
+            x = st[2] % n
+            if self.objs[x].dimensions != D.length or self.objs[x].base_offset:
+                return None
+            if st[3] == "obj":
+                a = st[4] % n
+                if self.objs[a].dimensions != D.length:
+                    return None
+                return ["convert", st[1], x, "obj", a]
+            return ["convert", st[1], x, "str", st[4]]
+        raise ValueError(st)
+
+    def step(self, st):
+        """`st` resolved -> ('obj', index, home) | ('ok',) | ('err', name)"""
+        import numpy as np
+        from unyt import Unit, unyt_array
+        import unyt.dimensions as D
+
+        k = st[0]
+        try:
+            if k == "lookup":
+                u = Unit(st[2], registry=self.regs[st[1]])
+            elif k == "clear":
+                self.nclear += 1
+                self.regs[st[1]].add(f"c13h{self.nclear}", 2.0, D.length)
+                return ("ok",)
+            elif k == "arith":
+                a, b = self.objs[st[1]], self.objs[st[2]]
+                u = a * b if st[3] == "*" else a / b
+            elif k == "construct":
+                reg = None if st[2] is None else self.regs[st[2]]
+                if st[3] and reg is not None and self.objs[st[1]].registry is not reg:
+                    self.tainted = True  # the user asked for the re-labelling (documented to skip every check)
+                u = unyt_array(np.array([1.0, 2.0]), self.objs[st[1]], registry=reg, bypass_validation=bool(st[3])).units
+            elif k == "convert":
+                x = unyt_array([1.0, 2.0], self.objs[st[2]])
+                u = entry_point(st[1], x, self.objs[st[4]] if st[3] == "obj" else st[4])
+                if u is None:
+                    return ("ok",)
+            else:
+                raise ValueError(st)
+        except Exception as e:  # noqa: BLE001
+            return exc(e)
+        i = self.idx(u)
+        return ("obj", i, self.home(u), str(u))
+
+
+def home_oracle(hist, nregs=2):
+    """runs a history of unit-object steps on the real library and checks directly: no step (other than the
+    user-level constructor with registry= AND bypass_validation=True) changes the registry of a unit object that
+    existed; every registry's string cache holds units of that registry only; `Unit(s, registry=r)` belongs to r.
+    -> (failures, trace)"""
+    W = HomeWorld(nregs)
+    fails, trace = [], []
+    seed = list(W.seed)
+    for k, st0 in enumerate(hist):
+        st = W.resolve(st0)
+        if st is None:
+            trace.append(None)
+            continue
+        before = [u.registry for u in W.objs]
+        out = W.step(st)
+        W.sweep()
+        tag = st[0] + (":" + st[1] + "|" + st[3] if st[0] == "convert" else "")
+        if not W.tainted:
+            moved = [i for i, (u, r) in enumerate(zip(W.objs, before)) if u.registry is not r]
+            if moved:
+                fails.append({"key": f"unit-object-moved-to-another-registry|{tag}", "step": k,
+                              "what": f"step {k} {st}: unit object(s) {moved[:3]} ({[str(W.objs[i]) for i in moved[:3]]}) that existed "
+                                      "before the step belong to another registry after it"})
+            for r, reg in enumerate(W.regs):
+                foreign = sorted(s_ for s_, u in reg._unit_object_cache.items() if u.registry is not reg)
+                if foreign:
+                    fails.append({"key": f"cache-hands-out-foreign-unit|{tag}", "step": k,
+                                  "what": f"after step {k} {st} the string cache of registry {r} holds units of another registry: {foreign[:3]}"})
+            if st[0] == "lookup" and out[0] == "obj" and out[2] != st[1]:
+                fails.append({"key": "lookup-answers-with-foreign-unit", "step": k,
+                              "what": f"step {k} {st}: Unit(s, registry=r) belongs to registry {out[2]}"})
+        if fails:
+            W.tainted = True  # everything after the first failing step is its consequence
+        trace.append({"st": st, "out": list(out), "homes": W.homes(), "caches": [W.cache(r) for r in range(1, len(W.regs))],
+                      "tainted": W.tainted})
+    return fails, {"seed": seed, "steps": trace, "nregs": nregs}
 
 
 def replay(hist, key):
     fails = [f for f in oracle(hist) if f["key"] == key]
+    assert not fails, fails[0]["what"]
+
+
+def replay_home(hist, key, nregs=2):
+    fails = [f for f in home_oracle(hist, nregs)[0] if f["key"] == key]
     assert not fails, fails[0]["what"]
